@@ -373,6 +373,8 @@ func c03(p *model.Prog, r *report.Result) {
 		r.Bad("C03.R5", "floor", "", "fewer than 10 stat conversions found")
 	}
 	c03r7(p, r)
+	c03r8(p, r)
+	c03r9(p, r)
 }
 
 // c03r3 checks the notification pairing per protocol server.
